@@ -109,14 +109,14 @@ type rxState struct {
 }
 
 type rxCtx struct {
-	in    *Interp
-	prog  *syntax.Prog
-	v     *Str
-	n     int
-	memo  map[[2]int]*rxState
-	busy  map[[2]int]bool
-	ncap  int
-	fail  *rxState
+	in   *Interp
+	prog *syntax.Prog
+	v    *Str
+	n    int
+	memo map[[2]int]*rxState
+	busy map[[2]int]bool
+	ncap int
+	fail *rxState
 }
 
 // regexMatch symbolically executes the compiled program of the regex source on the view s
